@@ -105,12 +105,19 @@ Ev(S, e) == [S EXCEPT !.evs = Append(@, e)]
 \* the provider invokes the call-back of entry e: in the thread of the
 \* requester it runs through the proxies to the original request; an entry
 \* that came through the queue source sends an out-of-band message upstream
-RECURSIVE Answer(_, _, _), Rereq(_, _), RegOut(_, _, _)
+RECURSIVE Answer(_, _, _), Rereq(_, _), RegOut(_, _, _), UnregAt(_, _, _), UnregOutIdx(_, _, _)
+\* a one-shot request of the application: its call-back unregisters it (from inside the provider's call when
+\* the answer is given at once); the event <<"ucb", r>> marks the moment
+OneShot(r) == "oneshot" \in DOMAIN cfg /\ r \in cfg.oneshot /\ cfg.owner[r] = NONE
+UnregInCb(S, r) ==
+  IF ~OneShot(r) \/ S.reg[r] = NONE THEN S
+  ELSE LET R == UnregAt(Ev(S, <<"ucb", r>>), S.reg[r], [r |-> r, d |-> 0, g |-> 0])
+       IN [R.s EXCEPT !.reg[r] = NONE]
 Answer(S, e, val) ==
   IF e.g = 0
   THEN LET S1 == Ev(S, <<"cb", e.r, T(e.r), val>>)
            p == cfg.owner[e.r]
-       IN IF p # NONE /\ HasRereq(p) THEN Rereq(S1, p) ELSE S1
+       IN IF p # NONE /\ HasRereq(p) THEN Rereq(S1, p) ELSE UnregInCb(S1, e.r)
   ELSE [S EXCEPT !.chU = Append(@, [r |-> e.r, g |-> e.g, val |-> val])]
 
 \* what the check call-back of many pipes does (a flow format answer makes the pipe require its buffer
@@ -134,7 +141,7 @@ ThrowAt(S, n, e) ==
              THEN [s |-> Answer(Ev(S1, <<"prov", cfg.pname[n], e.r, e.d>>), e, PVal[t]), e |-> 0]
              ELSE [s |-> S1, e |-> UNH]
 
-RECURSIVE RegAt(_, _, _), UnregAt(_, _, _), UnregOutIdx(_, _, _), Reissue(_, _, _),
+RECURSIVE RegAt(_, _, _), Reissue(_, _, _),
           FoldReg(_, _, _), FoldUnreg(_, _, _), Kill(_, _), MaybeKill(_, _)
 
 \* STRUCTURE##_register_output_request(n, e): e is n's own entry
@@ -355,7 +362,7 @@ RunA ==
               S1 == [Cur EXCEPT !.chU = Tail(@)]
               current == \E i \in DOMAIN qlist : qlist[i].r = m.r /\ qlist[i].g = m.g
           IN Apply(IF current \/ Variant = "oob_no_check"
-                   THEN Ev(S1, <<"cb", m.r, T(m.r), m.val>>) ELSE S1,
+                   THEN UnregInCb(Ev(S1, <<"cb", m.r, T(m.r), m.val>>), m.r) ELSE S1,
                    C("loop", "A", NONE), 0)
 
 \* the initial values for scenario c
@@ -445,8 +452,12 @@ TypeOK ==
 \* -- properties of the last command (outputs) --
 CbOf(r) == Cardinality({i \in DOMAIN evs : evs[i][1] = "cb" /\ evs[i][2] = r})
 
+\* (a call-back of a one-shot request is followed, within the same command, by its own unregistration)
 NoCallbackAfterUnregister ==
-  \A i \in DOMAIN evs : evs[i][1] = "cb" => reg[evs[i][2]] # NONE
+  \A i \in DOMAIN evs : evs[i][1] = "cb" =>
+     /\ \/ reg[evs[i][2]] # NONE
+        \/ \E j \in DOMAIN evs : j > i /\ evs[j] = <<"ucb", evs[i][2]>>
+     /\ ~\E j \in DOMAIN evs : j < i /\ evs[j] = <<"ucb", evs[i][2]>>
 
 NoSinkFreedWithRegs ==
   \A i \in DOMAIN evs : evs[i][1] = "freed" => evs[i][3] = 0
@@ -454,7 +465,7 @@ NoSinkFreedWithRegs ==
 \* an answer given by a sink reaches the requester at once in its thread, or
 \* becomes one upstream message
 ReachesProvide ==
-  cmd.op = "provide" =>
+  (cmd.op = "provide" /\ ~OneShot(cmd.b)) =>
     LET e == sreg[cmd.a][IndexR(sreg[cmd.a], cmd.b)]
     IN IF e.g = 0 THEN CbOf(cmd.b) = 1 /\ chU = pre.chU
        ELSE CbOf(cmd.b) = 0 /\ Len(chU) = Len(pre.chU) + 1
@@ -478,7 +489,7 @@ Askers(n, r, inc) ==
 
 \* registering where a probe on the way provides: answered on the spot, once
 ReachesProbe ==
-  (cmd.op \in {"reg", "require"} /\ Variant # "binfall") =>
+  (cmd.op \in {"reg", "require"} /\ Variant # "binfall" /\ ~OneShot(cmd.b)) =>
     LET r == cmd.b
         H == Expected(r)
         crosses == \E n \in H : K(n) = "qsink"
